@@ -71,7 +71,10 @@ Inductive op : Type :=
                                                suitability / target / reclaim_count tests of _mi_segment_attempt_reclaim *)
 | OVisitArena (m : vmode) (s : nat) (d : bool)   (* one cursor visit of arena segment s; d = the caller's decision when in hand *)
 | OVisitOs (m : vmode) (d : bool) (all : bool)   (* one cursor visit of the OS list; all = visit_all (blocking visit lock) *)
-| OCursorDone.                              (* _mi_arena_field_cursor_done *)
+| OCursorDone                               (* _mi_arena_field_cursor_done *)
+| OVisitLock (all : bool).                  (* mi_arena_segment_clear_abandoned_next_list up to its `while`: the visit lock is taken
+                                               (try / blocking) before the list count is looked at, so a cursor may hold the lock
+                                               without visiting any list entry (os_list_count = 0) *)
 
 Inductive pc : Type :=
 | Idle
@@ -260,6 +263,14 @@ Definition exec (st : state) (t : nat) (th : thread) : option outcome :=
       then Some (mkO (segs st) (os_list st) (os_lock st) (lock_release (os_vlock st) sp) (acount st) Idle false true
                      [(t, LVLock sp, 1%Z, 0%Z)])
       else Some (keep st th Idle true [])
+    | OVisitLock all :: _ =>
+      let sp := t_subproc th in
+      if t_vlock th then Some (keep st th Idle true [])
+      else if lock_held (os_vlock st) sp
+           then (if all then None                                    (* blocking acquire *)
+                 else Some (keep st th Idle true [(t, LVLock sp, 1%Z, 1%Z)]))   (* try-acquire failed: the cursor gives up *)
+           else Some (mkO (segs st) (os_list st) (os_lock st) ((sp, t) :: os_vlock st) (acount st) Idle true true
+                          [(t, LVLock sp, 0%Z, 1%Z)])
     end
 
   (* ---- abandon ---- *)
